@@ -1076,3 +1076,100 @@ func (t *Term) str(d int) string {
 	sb.WriteString(")")
 	return sb.String()
 }
+
+// ---------- rewriting (substitution + re-simplification) ----------
+
+// Rewriter substitutes terms by constants and rebuilds through the simplifying
+// constructors. Used for (a) propagating equalities the path condition fixes
+// and (b) evaluating a condition under a cached model.
+type Rewriter struct {
+	tc          *TermCtx
+	subst       map[*Term]*Term
+	memo        map[*Term]*Term
+	defaultZero bool // unmapped bit-vector/bool variables evaluate to 0 (model mode)
+}
+
+func (r *Rewriter) Rw(t *Term) *Term {
+	if t.op == OpConst {
+		return t
+	}
+	if v, ok := r.memo[t]; ok {
+		return v
+	}
+	if v, ok := r.subst[t]; ok {
+		r.memo[t] = v
+		return v
+	}
+	var res *Term
+	switch t.op {
+	case OpVar:
+		if r.defaultZero && t.w >= 0 {
+			res = Const64w(t.w, 0)
+			if t.w == 0 {
+				res = tFalse
+			}
+			r.subst[t] = res
+		} else {
+			res = t
+		}
+	case OpArrZero:
+		res = t
+	default:
+		changed := false
+		var buf [3]*Term
+		args := buf[:0]
+		if len(t.args) > 3 {
+			args = make([]*Term, 0, len(t.args))
+		}
+		for _, a := range t.args {
+			na := r.Rw(a)
+			if na != a {
+				changed = true
+			}
+			args = append(args, na)
+		}
+		if !changed {
+			res = t
+			break
+		}
+		tc := r.tc
+		switch t.op {
+		case OpAdd, OpSub, OpMul, OpUDiv, OpSDiv, OpURem, OpSRem, OpAnd, OpOr, OpXor, OpShl, OpLShr, OpAShr:
+			res = tc.Bin(t.op, args[0], args[1])
+		case OpNot:
+			res = tc.Not(args[0])
+		case OpNeg:
+			res = tc.Neg(args[0])
+		case OpConcat:
+			res = tc.Concat(args[0], args[1])
+		case OpExtract:
+			res = tc.Extract(args[0], int(t.val>>8), int(t.val&0xff))
+		case OpZExt:
+			res = tc.ZExt(args[0], t.w)
+		case OpSExt:
+			res = tc.SExt(args[0], t.w)
+		case OpEq:
+			res = tc.Eq(args[0], args[1])
+		case OpULt, OpULe, OpSLt, OpSLe:
+			res = tc.Cmp(t.op, args[0], args[1])
+		case OpBAnd:
+			res = tc.BAnd(args[0], args[1])
+		case OpBOr:
+			res = tc.BOr(args[0], args[1])
+		case OpBNot:
+			res = tc.BNot(args[0])
+		case OpIte:
+			res = tc.Ite(args[0], args[1], args[2])
+		case OpSelect:
+			res = tc.Select(args[0], args[1])
+		case OpStore:
+			res = tc.Store(args[0], args[1], args[2])
+		case OpUF:
+			res = tc.UF(t.name, t.w, append([]*Term(nil), args...)...)
+		default:
+			panic("Rewriter: unhandled op")
+		}
+	}
+	r.memo[t] = res
+	return res
+}
